@@ -102,6 +102,10 @@ template <class T> static T lane_fix(T e) { if (e > 0) return e; if (e == 0 || e
 template <class T, int L> static void p2_vec(pbt::Ctx& c, T v) {
 	typedef glm::vec<L, T> V;
 	T lanes[4] = {v, lane_fix((T)~v), lane_fix((T)(v + 1)), lane_fix((T)(v ^ (T)0x5a))};
+#ifdef PBT_UBSAN_HOOK
+	// sanitizer builds: every lane must stay inside the domain (representable ceiling), like the scalar argument
+	for (int i = 0; i < 4; ++i) if (lanes[i] > 0 && !Lim<T>::fits(c18::ceilPow2((typename c18::WideOf<T>::type)lanes[i]))) lanes[i] = v;
+#endif
 	V x;
 	for (int i = 0; i < L; ++i) x[i] = lanes[(i + (int)(ull(v) % L)) % 4];
 	glm::vec<L, bool> isp = glm::isPowerOfTwo(x);
@@ -132,6 +136,11 @@ template <class T> static void prop_p2(pbt::Ctx& c) {
 	else { c18::begin_random_case(); v = gen_p2_value<T>(c); }
 	if (c.verbose) c.logf("%s x=%s (0x%llx)", tn<T>(), D(v), ull(v));
 	typedef typename c18::WideOf<T>::type W;
+#ifdef PBT_UBSAN_HOOK
+	// sanitizer builds (C20): an argument whose exact result is not representable in the element type is outside the domain
+	// (signed overflow there is the caller's), so it is not evaluated at all
+	if (v > 0 && !Lim<T>::fits(c18::ceilPow2((W)v))) { c.cls("san:ceil-not-representable(skipped)"); c.skip(); return; }
+#endif
 	if (v == 0) {
 		// convention, reported not judged
 		c.cls(glm::isPowerOfTwo(v) ? "zero:isPowerOfTwo=true(convention)" : "zero:isPowerOfTwo=false(convention)");
@@ -288,6 +297,14 @@ template <class T> static void prop_mult(pbt::Ctx& c) {
 		x = (T)(typename std::make_unsigned<T>::type)(idx % Dom<T>::size); m = (T)(idx / Dom<T>::size + 1);
 	} else { c18::begin_random_case(); gen_mult_pair<T>(c, &x, &m); idx = ull(x) * 0x9e3779b97f4a7c15ULL; }
 	if (c.verbose) c.logf("%s x=%s m=%s", tn<T>(), D(x), D(m));
+#ifdef PBT_UBSAN_HOOK
+	{	// sanitizer builds (C20): skip arguments whose floor / ceil multiple is not representable (see prop_p2); the vector lanes use
+		// x-1, x+1 style neighbours, so one more multiple of margin is required on both sides
+		typedef typename c18::WideOf<T>::type W2;
+		W2 lo = c18::floorMul((W2)x, (W2)m) - 2 * (W2)m, hi = c18::ceilMul((W2)x, (W2)m) + 2 * (W2)m;
+		if (!Lim<T>::fits(lo) || !Lim<T>::fits(hi)) { c.cls("san:multiple-not-representable(skipped)"); c.skip(); return; }
+	}
+#endif
 	bool exact = judge_mult(c, x, m, mult_scalar(x, m), 0);
 	if (!exact) c.nontrivial();
 	c.cls(sign_class(x));
